@@ -79,8 +79,10 @@ def install_observers():
     if r[0] != "ret" or not evs or imps != 1 or made != 1:
         raise HarnessError("observers do not see a valid canary: %r %r %r %r" % (r, evs, imps, made))
     r, evs, imps, made = observe(lambda: JC.load({"__jsonclass__": ["decimal.Decimal", ["1"]]}))
-    if not any(e[0] == "__import__" for e in evs):
-        raise HarnessError("the __import__ wrapper does not see a cached module import: %r" % (evs,))
+    # an import of a module that is already cached raises no audit event: one of the two call wrappers must see it,
+    # whichever of __import__ / importlib.import_module the translator uses
+    if not any(e[0] in ("__import__", "import_module") for e in evs):
+        raise HarnessError("neither import wrapper sees a cached module import: %r" % (evs,))
 
 
 def observe(fn):
